@@ -772,14 +772,19 @@ fn world_file(g: &GenCtx, tables: &[Vec<u32>; 4], verif_seed: u64, w: u64) -> (R
     let mut rng = crate::rng::Rng::new(derive(verif_seed, 0x776f_726c_6400 + w));
     let perm_ix = (w % 24) as usize;
     let prefix = if w < 72 { 4 } else { rng.below(5) as usize };
-    let variant = match (w / 24) % 3 {
+    let variant = match (w / 24) % 4 {
         0 => "one_thread_forced_order",
         1 => "chained_threads_forced_order",
-        _ => "free_threads_scheduler_decides",
+        2 => "free_threads_scheduler_decides",
+        // the process's very first library calls carry invalid arguments (a lazily built table
+        // that captures something from, or is poisoned by, its first caller)
+        _ => "poison_first",
     };
+    let prefix = if variant == "poison_first" { rng.range(1, 3) as usize } else { prefix };
     // several worlds share one main scenario, so that the same calls are seen after different
     // population orders
     let main_seed = scenario_seed(verif_seed, 0x5700_0000 + w / 6);
+    // (orders are complete for the first 72 worlds: 24 orders x the three table-forcing variants)
     let mut main = generate(g, main_seed);
     main.probe = rng.pct(50);
     // prologue
@@ -800,9 +805,24 @@ fn world_file(g: &GenCtx, tables: &[Vec<u32>; 4], verif_seed: u64, w: u64) -> (R
         sched_salt: 0,
         pct_depth: 0,
     };
+    // kind-balanced choice among the poison ops of the pool
+    let poison_ops: Vec<u32> = (0..g.pool.ops.len() as u32).filter(|i| g.pool.ops[*i as usize].poison.is_some() && g.refs[*i as usize].status == "ok").collect();
     for k in 0..prefix {
         let table = PERMS[perm_ix][k];
-        let ix = *rng.pick(&tables[table]) as usize;
+        let ix = if variant == "poison_first" && !poison_ops.is_empty() {
+            let mut pick = *rng.pick(&poison_ops);
+            for _ in 0..6 {
+                let kind = g.kinds[rng.below(g.kinds.len() as u64) as usize];
+                let c: Vec<u32> = poison_ops.iter().copied().filter(|i| g.pool.ops[*i as usize].op.kind() == kind).collect();
+                if !c.is_empty() {
+                    pick = *rng.pick(&c);
+                    break;
+                }
+            }
+            pick as usize
+        } else {
+            *rng.pick(&tables[table]) as usize
+        };
         pro.ops.push(g.pool.ops[ix].op.clone());
         pro.expected.push(g.refs[ix].outcome.clone().unwrap());
         pro.foot.push(g.refs[ix].foot);
@@ -811,16 +831,22 @@ fn world_file(g: &GenCtx, tables: &[Vec<u32>; 4], verif_seed: u64, w: u64) -> (R
         match variant {
             "one_thread_forced_order" => {
                 if pro.threads.is_empty() {
-                    pro.threads.push(crate::scenario::ThreadPlan { start: crate::scenario::Start::AtBegin, hash_key: 0, steps: Vec::new() });
+                    pro.threads.push(crate::scenario::ThreadPlan { start: crate::scenario::Start::AtBegin, hash_key: 0, steps: Vec::new(), stack_kb: 0 });
+                }
+                pro.threads[0].steps.push(step);
+            }
+            "poison_first" => {
+                if pro.threads.is_empty() {
+                    pro.threads.push(crate::scenario::ThreadPlan { start: crate::scenario::Start::AtBegin, hash_key: 0, steps: Vec::new(), stack_kb: 0 });
                 }
                 pro.threads[0].steps.push(step);
             }
             "chained_threads_forced_order" => {
                 let start = if k == 0 { crate::scenario::Start::AtBegin } else { crate::scenario::Start::AfterExit((k - 1) as u8) };
-                pro.threads.push(crate::scenario::ThreadPlan { start, hash_key: 0, steps: vec![step] });
+                pro.threads.push(crate::scenario::ThreadPlan { start, hash_key: 0, steps: vec![step], stack_kb: 0 });
             }
             _ => {
-                pro.threads.push(crate::scenario::ThreadPlan { start: crate::scenario::Start::AtBegin, hash_key: 0, steps: vec![step] });
+                pro.threads.push(crate::scenario::ThreadPlan { start: crate::scenario::Start::AtBegin, hash_key: 0, steps: vec![step], stack_kb: 0 });
             }
         }
     }
